@@ -73,6 +73,13 @@ def gen_parts(rng, ctxname, ids, off=False):
                 if rng.random() < .15:
                     src = rng.choice(['o', 'h', 'nn', 'by', 'z', 'e', 'ss'])
             parts.append(['expr', src, None, rid])
+    if rng.random() < .12 and ctxname != 'cdata':
+        # a string: expression with braces and interpolations of its own, written where no later '}' follows in the region
+        # (so that 'its own closing brace' has one reading only)
+        src = gen_string_expr(rng)
+        parts.append(['expr', src, None, None])
+        if rng.random() < .5:
+            parts.append(['lit', rng.choice([' tail', ' {', '.', ' - {x'])])
     # merge adjacent literals
     merged = []
     for p in parts:
@@ -83,7 +90,42 @@ def gen_parts(rng, ctxname, ids, off=False):
     return merged
 
 
+STRING_EXPRS = {}
+
+
+def gen_string_expr(rng):
+    def body(depth):
+        out = []
+        for _ in range(rng.randint(1, 3)):
+            r = rng.random()
+            if r < .35:
+                out.append(('lit', rng.choice(['Hello ', '! ', 'x', ': ', ' - ', 'id', '"k": ', '; '])))
+            elif r < .75 or depth > 1:
+                out.append(('var', rng.choice(['t', 'n', 'uni', 'fl', 'v'])))
+            else:
+                out += [('lit', '{')] + body(depth + 1) + [('lit', '}')]
+        return out
+    pieces = body(0)
+    if not any(k == 'var' for k, v in pieces):
+        pieces.append(('var', 'n'))
+    if pieces[-1][0] == 'lit' and pieces[-1][1].endswith((' ', '$')):
+        pieces.append(('lit', '.'))
+    if pieces[0][0] == 'lit' and pieces[0][1].startswith(' '):
+        pieces.insert(0, ('lit', 'a'))
+    src = 'string:' + ''.join(v if k == 'lit' else '${%s}' % v for k, v in pieces)
+    STRING_EXPRS[src] = pieces
+    return src
+
+
+def string_value(src, env):
+    return ''.join(v if k == 'lit' else exprs.to_text(env[v]) for k, v in STRING_EXPRS[src])
+
+
 def written_expr(rng, src, ctxname):
+    if src in STRING_EXPRS:
+        if ctxname in ('text', 'dq', 'sq'):
+            return exprs.encode_expr_for_markup(rng, src, {'dq': '"', 'sq': "'"}.get(ctxname, ''))
+        return src
     if re.fullmatch(r'[A-Za-z_][A-Za-z0-9_]*', src) and rng.random() < .3:
         src = rng.choice([' %s ', '\n %s\n', ' %s', '%s\t'])% src       # a plain name written with white space inside the braces
     elif rng.random() < .15:
@@ -147,6 +189,8 @@ class Expect:
         if rid is not None:
             self.log.append(rid)
             return self.recvals(rid)
+        if src in STRING_EXPRS:
+            return string_value(src, self.env)
         return exprs.evaluate(src, self.env)
 
     def region_on(self, region, keep_dd=False, alt_implicit=False):
@@ -261,7 +305,10 @@ def gen_el(rng, depth, ids, on):
             kids.append(gen_region(rng, 'cdata', ids, off=not on2))
     # a dropped <!--! comment between two text regions also makes them adjacent in the *source* only;
     # they remain separate text tokens, which is fine.
-    return El(sw, attrs, kids)
+    el = El(sw, attrs, kids)
+    # the element is also a macro definition (rendered where it stands): the switch of an ancestor holds inside it as well
+    el.macro = 'mc%d' % next(ids) if depth and rng.random() < .12 else None
+    return el
 
 
 def ser_region(r):
@@ -284,6 +331,8 @@ def ser(node, data_spelling=False):
         s += ' %s=%s%s%s' % (names[i], q, ser_region(a), q)
     if node.switch is not None:
         s += (' data-meta-interpolation="%s"' if data_spelling else ' meta:interpolation="%s"') % node.switch
+    if getattr(node, 'macro', None):
+        s += (' data-metal-define-macro="%s"' if data_spelling else ' metal:define-macro="%s"') % node.macro
     return s + '>' + ''.join(ser(k, data_spelling) for k in node.kids) + '</e>'
 
 
